@@ -118,6 +118,22 @@ fn run_case(case: &Value) -> Value {
                 out["tokens"] = Value::Array(toks.iter().map(|(t, v, l, _)| json!([t, v, l])).collect());
             }
         }
+        if want.contains(&"fragfile") {
+            // load_fragment_file(path) is load_fragment of the decoded content of the file
+            let dir = std::env::temp_dir().join(format!("a2lverif_frag_{}", std::process::id()));
+            let _ = std::fs::create_dir_all(&dir);
+            let path = dir.join("fragment.a2l");
+            let _ = std::fs::write(&path, text);
+            let a = guarded(|| a2lfile::load_fragment(text, a2ml.clone()));
+            let b = guarded(|| a2lfile::load_fragment_file(&path, a2ml.clone()));
+            out["fragfile_same"] = json!(match (&a, &b) {
+                (Ok(Ok(x)), Ok(Ok(y))) => x == y && format!("{x:?}") == format!("{y:?}"),
+                (Ok(Err(x)), Ok(Err(y))) => err_class(x)[0] == err_class(y)[0] && err_class(x)[1] == err_class(y)[1],
+                (Err(_), Err(_)) => true,
+                _ => false,
+            });
+            let _ = std::fs::remove_dir_all(&dir);
+        }
         match guarded(|| a2lfile::load_fragment(text, a2ml.clone())) {
             Err(p) => out["panic"] = json!(p),
             Ok(Ok(module)) => {
@@ -190,6 +206,12 @@ fn run_case(case: &Value) -> Value {
                     let (re2, _) = a2lfile::load(&path2, a2ml.clone(), strict).map_err(|e| e.to_string())?;
                     re2.write(&path2, Some("written by the verification harness")).map_err(|e| e.to_string())?;
                     let text3 = std::fs::read_to_string(&path2).map_err(|e| e.to_string())?;
+                    // without a banner the file holds the text of write_to_string
+                    let path3 = dir.join("written3.a2l");
+                    a2l.write(&path3, None).map_err(|e| e.to_string())?;
+                    if std::fs::read_to_string(&path3).map_err(|e| e.to_string())? != a2l.write_to_string() {
+                        return Err("write(path, None) does not write the text of write_to_string".to_string());
+                    }
                     Ok::<_, String>((text.starts_with("/* written by the verification harness */"), re == a2l, log.len(), text3 == text2 && text2.trim_start_matches("/* written by the verification harness */").trim_start() == text.trim_start_matches("/* written by the verification harness */").trim_start()))
                 }) {
                     Ok(Ok((banner, eq, nlog, fix))) => json!({"ok": true, "banner_first": banner, "model_eq": eq, "diags": nlog, "text_fix": fix}),
